@@ -1,11 +1,21 @@
 #!/bin/sh
-# tools/matrix.sh [patch files...]  -- run every quick check against every patch (scratch copies), print a table.
-# Output lines:  <patch> : detected-by C01 C04 ... | silent C02 ...
+# tools/matrix.sh [patch files...]  -- run the quick checks related to the files a patch touches
+# (plus the seed's own property) against a scratch copy with the patch applied.
+# Output lines:  <patch> : detected-by C01 C04 ... | harness-error ... | silent ...
 cd "$(dirname "$0")/.."
-IDS="C01 C02 C03 C04 C05 C06 C07 C08 C09 C10 C11 C12 C13 C14 C15 C16 C17 C18 C19 C20"
 [ $# -gt 0 ] || set -- mutants/*.diff seeded/*/patch.diff seeded/*/patch.rebased.diff
 for P in "$@"; do
   [ -f "$P" ] || continue
+  IDS=""
+  grep -q "pydiffx/reader.py" "$P" && IDS="$IDS C01 C03 C04 C05 C06 C07 C08 C10 C11 C12 C15 C17"
+  grep -q "pydiffx/writer.py" "$P" && IDS="$IDS C01 C02 C04 C05 C06 C09 C15"
+  grep -q "utils/text.py" "$P" && IDS="$IDS C01 C02 C03 C05 C06 C07 C08 C13 C15 C16"
+  grep -q "unified_diffs.py" "$P" && IDS="$IDS C13 C14"
+  grep -q "pydiffx/dom/" "$P" && IDS="$IDS C05 C06 C08 C13 C18 C19"
+  grep -q "pygments_lexer.py" "$P" && IDS="$IDS C20"
+  grep -q "pydiffx/sections.py" "$P" && IDS="$IDS C01 C09 C10"
+  own="$(echo "$P" | sed -n 's#.*seeded/\(C[0-9]*\)-.*#\1#p')"
+  IDS="$(echo $IDS $own | tr ' ' '\n' | sort -u | tr '\n' ' ')"
   D="$(mktemp -d /tmp/mx-XXXXXX)"
   cp -r /repo/python /repo/docs "$D"/
   if ! ( cd "$D" && patch -s -p1 < "$OLDPWD/$P" >/dev/null 2>&1 ); then
@@ -16,7 +26,7 @@ for P in "$@"; do
     VERIF_REPO="$D" VERIF_NO_REVALIDATE=1 ./check "$id" --tier quick --no-evidence >/dev/null 2>&1; rc=$?
     case $rc in 0) sil="$sil $id";; 1) det="$det $id";; *) err="$err $id(rc=$rc)";; esac
   done
-  echo "$P : detected-by$det | harness-error$err"
+  echo "$P : detected-by$det | harness-error$err | silent$sil"
   rm -rf "$D"
 done
 rm -f replays/*.json
